@@ -67,6 +67,8 @@ def corpus_docs(tier):
         ("m", (("a", 1), ("b", ("l", (0, 1))))),
         ("m", (("a", True), ("b", ("l", (False, True))))),
         ("l", (1, True, 0, False)),
+        ("s", (1, "b")), ("s", (True, "b")), ("s", (0, False)),
+        ("m", (("a", ("s", (1, "x"))),)), ("m", (("a", ("s", (True, "x"))),)),
         ("l", (("l", (1, 2)), ("l", (2, 1)))),
     ]
     return docs
@@ -87,7 +89,7 @@ def neighbours(spec):
         out.append(("s", items[1:]))
         for m in ("x", "y", "a"):
             if m not in items:
-                out.append(("s", tuple(sorted(items + (m,)))))
+                out.append(("s", tuple(sorted(items + (m,), key=repr))))
         return out
     if tag == "l":
         for i in range(len(items)):
@@ -219,7 +221,9 @@ def equal(l, r, arrays, aoh):
                 return False
         return True
     if corpus.is_set(l) and corpus.is_set(r):
-        return set(l) == set(r)
+        # type-strict: the member 1 is not the member true
+        return sorted(map(repr, map(corpus.plain_scalar, l))) == \
+            sorted(map(repr, map(corpus.plain_scalar, r)))
     if corpus.is_scalar(l) and corpus.is_scalar(r):
         pl, pr = corpus.plain_scalar(l), corpus.plain_scalar(r)
         if (pl[0] == "bool") != (pr[0] == "bool"):
@@ -251,7 +255,11 @@ def navigate(doc, ypath):
                 return False, None
             if corpus.is_set(node):
                 for m in node:
-                    if m == attrs:
+                    # (members that are not text are addressed by their text)
+                    if m == attrs or (not isinstance(m, str) and (
+                            str(m) == attrs or (
+                                str(attrs).lstrip("-").isdigit()
+                                and m == int(attrs)))):
                         node = m
                         break
                 else:
@@ -298,7 +306,11 @@ def covers(entry_pos, leaf_pos):
         return False
     for a, b in zip(entry_pos, leaf_pos):
         if a != b and str(a) != str(b):
-            return False
+            # a member that is not text is named by one text for both
+            # documents (true in one, 1 in the other: the path says 1)
+            if not (isinstance(b, (bool, int)) and not isinstance(b, str)
+                    and str(a).lstrip("-").isdigit() and b == int(a)):
+                return False
     return True
 
 
